@@ -949,6 +949,7 @@ pub fn check_c05(tier: &str) -> i32 {
     for c in ["connection-boundary", "command-between-reads", "stream-complete", "stream-ends-in-framing-error", "stream-ends-mid-frame", "client-accepts", "client-framing-error", "client-still-waiting", "client-exception"] {
         rep.require_class(c);
     }
+    rep.assumptions.push("the back-pressure phase over real sockets is a fixed set of 16 peer behaviours; where the kernel cuts a write is the kernel's choice and is not enumerated".into());
     rep.assumptions.push("a frame carrying a transaction id that has not been transmitted yet is never buffered before its request leaves (tokio's select! tie, excluded in DESIGN.md section 10)".into());
     rep.finish()
 }
